@@ -42,6 +42,10 @@ func c02Build(cs c02Case) (root, obs dyn.Buf, cur dyn.Buf, st *mstore, mcur mvie
 		}
 	}
 	obs = root.Slice(0, cs.K)
+	if h := hdr(root); h.Len != cs.C*cs.L+cs.R || h.Cap != cs.C*cs.K {
+		fs = append(fs, core.Failf("Slice/parent-changed", "%s Slice(0,%d) of the root changed the root itself: Len %d Cap %d, want %d and %d", c02Desc(cs), cs.K, h.Len, h.Cap, cs.C*cs.L+cs.R, cs.C*cs.K))
+		return
+	}
 	st = newStore(cs.C * cs.K)
 	for i := range st.cells {
 		st.cells[i] = tk(int64(i + 1))
@@ -170,6 +174,25 @@ func c02RunRaw(cs c02Case) (fs []F) {
 				return
 			}
 		}
+	}
+	if dyn.Types[t].Kind == dyn.Float && mcf.n > 0 {
+		// the two zeros: a write through either view is seen through the other by bit pattern
+		nz, pz := dyn.F(math.Copysign(0, -1)), dyn.F(0)
+		for _, pr := range [][2]dyn.Val{{pz, nz}, {nz, pz}} {
+			obs.SetSample(mcf.off, pr[0])
+			cf.SetSample(0, pr[1])
+			if g := obs.Sample(mcf.off); g.B != pr[1].B {
+				fail("alias", "the parent storage holds %v, %v written through the child: the parent storage reads %v", pr[0], pr[1], g)
+				return
+			}
+			cf.SetSample(0, pr[0])
+			obs.SetSample(mcf.off, pr[1])
+			if g := cf.Sample(0); g.B != pr[1].B {
+				fail("alias", "the child holds %v, %v written to the parent storage: the child reads %v", pr[0], pr[1], g)
+				return
+			}
+		}
+		obs.SetSample(mcf.off, dyn.Tok(t, st.cells[mcf.off]))
 	}
 	for _, k := range ks {
 		obs.SetSample(mcf.off+k, dyn.Tok(t, tok))
